@@ -8,7 +8,7 @@ Set Implicit Arguments.
 Lemma apply_ir_fields i s :
   popped (apply_ir i s) = popped s /\ pend (apply_ir i s) = pend s /\ cache (apply_ir i s) = cache s
   /\ lock (apply_ir i s) = lock s /\ thr (apply_ir i s) = thr s /\ log (apply_ir i s) = log s
-  /\ nreg (apply_ir i s) = nreg s /\ g_bad (apply_ir i s) = g_bad s
+  /\ nreg (apply_ir i s) = nreg s /\ g_late (apply_ir i s) = g_late s
   /\ g_snap_cache (apply_ir i s) = g_snap_cache s /\ g_snap_scan (apply_ir i s) = g_snap_scan s.
 Proof.
   destruct i as [n o|n]; simpl.
@@ -19,7 +19,7 @@ Qed.
 Lemma apply_irs_fields l s :
   popped (apply_irs l s) = popped s /\ pend (apply_irs l s) = pend s /\ cache (apply_irs l s) = cache s
   /\ lock (apply_irs l s) = lock s /\ thr (apply_irs l s) = thr s /\ log (apply_irs l s) = log s
-  /\ nreg (apply_irs l s) = nreg s /\ g_bad (apply_irs l s) = g_bad s
+  /\ nreg (apply_irs l s) = nreg s /\ g_late (apply_irs l s) = g_late s
   /\ g_snap_cache (apply_irs l s) = g_snap_cache s /\ g_snap_scan (apply_irs l s) = g_snap_scan s.
 Proof.
   revert s; induction l as [|i l IH]; intros s; simpl.
@@ -39,7 +39,7 @@ Ltac irs_rw :=
   | |- context [thr (apply_irs ?l ?s)] => rewrite (proj1 (proj2 (proj2 (proj2 (proj2 (apply_irs_fields l s))))))
   | |- context [log (apply_irs ?l ?s)] => rewrite (proj1 (proj2 (proj2 (proj2 (proj2 (proj2 (apply_irs_fields l s)))))))
   | |- context [nreg (apply_irs ?l ?s)] => rewrite (proj1 (proj2 (proj2 (proj2 (proj2 (proj2 (proj2 (apply_irs_fields l s))))))))
-  | |- context [g_bad (apply_irs ?l ?s)] => rewrite (proj1 (proj2 (proj2 (proj2 (proj2 (proj2 (proj2 (proj2 (apply_irs_fields l s)))))))))
+  | |- context [g_late (apply_irs ?l ?s)] => rewrite (proj1 (proj2 (proj2 (proj2 (proj2 (proj2 (proj2 (proj2 (apply_irs_fields l s)))))))))
   end.
 
 (* every coarse run is a run of micro-steps: the theorems about [run] cover what the
@@ -121,7 +121,7 @@ Definition upd (f : nat -> pc) (t : nat) (p : pc) : nat -> pc := fun t' => if t'
 Lemma release_fields s t :
   popped (release s t) = popped s /\ pend (release s t) = pend s /\ thr (release s t) = thr s
   /\ log (release s t) = log s /\ mods (release s t) = mods s /\ cache (release s t) = cache s
-  /\ nreg (release s t) = nreg s /\ g_bad (release s t) = g_bad s /\ g_ever (release s t) = g_ever s.
+  /\ nreg (release s t) = nreg s /\ g_late (release s t) = g_late s /\ g_started (release s t) = g_started s.
 Proof.
   unfold release. destruct (lock s) as [t'|]; [destruct (t' =? t)|]; simpl; repeat split.
 Qed.
@@ -277,7 +277,8 @@ Proof.
   destruct e as [i|n]; simpl.
   - destruct (apply_ir_fields i s) as (a&b&c'&d&e&f&_). rewrite a, e, f. auto.
   - destruct (m_get (pend s) n); simpl; auto.
-    destruct (m_get (mods s) n); simpl; irs_rw; simpl; auto.
+    destruct (m_get (mods s) n) as [o'|]; simpl; auto.
+    destruct (has_own w s o'); simpl; irs_rw; simpl; auto.
 Qed.
 
 Lemma IM_step o l s : IM o s -> IM o (step c w l s).
@@ -365,21 +366,7 @@ Proof.
   - intros (n & d & H). destruct H as [H|[H|[H|[]]]]; discriminate.
 Qed.
 
-(* candidate finding C17-G1: a registration for an already imported module runs the built-in glue at
-   once although the module provides its own glue, which then also runs *)
 Definition g1_world := mkworld 1 [OMod (Some (mkfn BOk []))] [mkfn BOk []].
-Definition g1_hist := [CEnv (EIR (IIns 0 0)); CEnv (EReg 0); CFull 0].
-
-Theorem never_both_refuted :
-  exists w scanned h n o f,
-    hist_ok h = true /\
-    let s := fst (crun src_cfg w h (init w scanned)) in
-    In (EvImm f n) (log s) /\ (exists d, In (EvCallM o n d) (log s)) /\ g_bad s = true.
-Proof.
-  exists g1_world, true, g1_hist, 0, 0, 0.
-  split; [reflexivity|]. vm_compute.
-  split; [|split]; [right; right; left; reflexivity | exists None; right; left; reflexivity | reflexivity].
-Qed.
 
 (* ------------------------------------------------------------------ a raising glue is a warning *)
 Definition selected (w : world) (mf bf : option nat) : option (fnspec * bool) :=
@@ -491,7 +478,8 @@ Proof.
     + destruct (apply_ir_fields i s) as (_&_&_&_&_&L&_). rewrite L in H. exact H.
     + destruct (m_get (pend s) n'); simpl in H.
       * destruct H as [H|H]; [discriminate|exact H].
-      * destruct (m_get (mods s) n'); simpl in H; [|exact H].
+      * destruct (m_get (mods s) n') as [o'|]; simpl in H; [|exact H].
+        destruct (has_own w s o'); simpl in H; [exact H|].
         rewrite In_log_irs in H. simpl in H. destruct H as [H|H]; [discriminate|exact H].
   - unfold tstep.
     destruct (thr s t) as [| |l| | |todo n|nm mf bf cur todo n|ok] eqn:E.
@@ -556,3 +544,243 @@ Proof.
     - intros s0 l I. apply PM_step; [exact Hp|exact I]. }
   exact (proj1 I f n H).
 Qed.
+
+(* ------------------------------------------------------------------ step specifications *)
+Lemma m_get_del_same p n : m_get (m_del p n) n = None.
+Proof.
+  induction p as [|[k v] r IH]; simpl; auto.
+  destruct (k =? n) eqn:Q; auto. simpl. rewrite Q. exact IH.
+Qed.
+
+Lemma m_get_del_other p a n : a <> n -> m_get (m_del p a) n = m_get p n.
+Proof.
+  intros NE. induction p as [|[k v] r IH]; simpl; auto.
+  destruct (k =? a) eqn:Q.
+  - apply Nat.eqb_eq in Q. subst k. destruct (a =? n) eqn:Q2; [apply Nat.eqb_eq in Q2; congruence|exact IH].
+  - simpl. destruct (k =? n); auto.
+Qed.
+
+Lemma m_get_del_none p a n : m_get p n = None -> m_get (m_del p a) n = None.
+Proof.
+  intros H. destruct (Nat.eq_dec a n) as [->|NE]; [apply m_get_del_same|].
+  rewrite m_get_del_other by exact NE. exact H.
+Qed.
+
+Definition visit_mf (w : world) (s : st) (nm : nat) : option nat :=
+  match m_get (mods s) nm with
+  | Some o => match glue_of w o with
+              | Some _ => if mem_nat o (popped s) then None else Some o
+              | None => None
+              end
+  | None => None
+  end.
+
+Lemma visit_mf_some w s nm o : visit_mf w s nm = Some o ->
+  m_get (mods s) nm = Some o /\ glue_of w o <> None /\ ~ In o (popped s).
+Proof.
+  unfold visit_mf. destruct (m_get (mods s) nm) as [o'|]; [|discriminate].
+  destruct (glue_of w o') eqn:G; [|discriminate].
+  destruct (mem_nat o' (popped s)) eqn:M; [discriminate|].
+  intros H; inversion H; subst. repeat split; auto. congruence. apply mem_nat_false. exact M.
+Qed.
+
+Lemma visit_mf_none w s nm o : visit_mf w s nm = None -> m_get (mods s) nm = Some o ->
+  glue_of w o = None \/ In o (popped s).
+Proof.
+  unfold visit_mf. intros H E. rewrite E in H.
+  destruct (glue_of w o); [|left; reflexivity].
+  destruct (mem_nat o (popped s)) eqn:M; [|discriminate]. right. apply mem_nat_In. exact M.
+Qed.
+
+Definition visit_pc (w : world) (s : st) (nm : nat) (todo : list nat) (k : nat) : pc :=
+  if some_or (visit_mf w s nm) (m_get (pend s) nm)
+  then PCall nm (visit_mf w s nm) (m_get (pend s) nm) (m_get (mods s) nm) todo k
+  else PScan todo k.
+
+Lemma visit_spec c w t nm todo k s : c_pop c = true ->
+  let s' := visit c w t nm todo k s in
+  popped s' = match visit_mf w s nm with Some o => o :: popped s | None => popped s end
+  /\ pend s' = m_del (pend s) nm /\ log s' = log s /\ thr s' = upd (thr s) t (visit_pc w s nm todo k)
+  /\ mods s' = mods s /\ cache s' = cache s /\ lock s' = lock s
+  /\ g_since_cache s' = g_since_cache s /\ g_since_snap s' = g_since_snap s /\ g_nrem s' = g_nrem s
+  /\ g_started s' = g_started s /\ g_late s' = g_late s
+  /\ g_snap_cache s' = g_snap_cache s /\ g_snap_scan s' = g_snap_scan s.
+Proof.
+  intros Hpop. unfold visit, visit_pc, visit_mf. rewrite Hpop. simpl. repeat split.
+Qed.
+
+Lemma call_ghost c w t nm mf bf cur todo n s :
+  let s' := call c w t nm mf bf cur todo n s in
+  g_started s' = g_started s /\ g_late s' = g_late s.
+Proof.
+  assert (IR : forall l s0, g_started (apply_irs l s0) = g_started s0 /\ g_late (apply_irs l s0) = g_late s0).
+  { induction l as [|i l IH]; intros s0; [split; reflexivity|].
+    unfold apply_irs in *. simpl. destruct (IH (apply_ir i s0)) as [A B]. rewrite A, B.
+    destruct i as [a b|a]; simpl; [split; reflexivity|]. destruct (m_get (mods s0) a); split; reflexivity. }
+  assert (RL : forall s0, g_started (release s0 t) = g_started s0 /\ g_late (release s0 t) = g_late s0).
+  { intros s0. destruct (release_fields s0 t) as (_&_&_&_&_&_&_&A&B). auto. }
+  unfold call, abort.
+  destruct mf as [o'|]; [|destruct bf as [f|]];
+    try (destruct (fbeh _); [|destruct (c_guarded c)|]); simpl;
+    repeat match goal with |- context [release ?x t] => destruct (RL x) as [-> ->] end; simpl;
+    repeat match goal with |- context [apply_irs ?l ?x] => destruct (IR l x) as [-> ->] end; simpl; split; reflexivity.
+Qed.
+
+Lemma ir_ghost i s : g_started (apply_ir i s) = g_started s /\ g_late (apply_ir i s) = g_late s.
+Proof.
+  destruct i as [a b|a]; simpl; [split; reflexivity|]. destruct (m_get (mods s) a); split; reflexivity.
+Qed.
+
+Lemma irs_ghost l s : g_started (apply_irs l s) = g_started s /\ g_late (apply_irs l s) = g_late s.
+Proof.
+  revert s; induction l as [|i l IH]; intros s; [split; reflexivity|].
+  unfold apply_irs in *. simpl. destruct (IH (apply_ir i s)) as [A B]. rewrite A, B. apply ir_ghost.
+Qed.
+
+Definition is_pcall (p : pc) : bool := match p with PCall _ _ _ _ _ _ => true | _ => false end.
+Definition is_scan_cons (p : pc) : bool := match p with PScan (_ :: _) _ => true | _ => false end.
+
+(* every branch of a thread step other than the loop body (visit / call) *)
+Lemma tstep_quiet c w t s :
+  is_pcall (thr s t) = false -> is_scan_cons (thr s t) = false ->
+  let s' := tstep c w t s in
+  popped s' = popped s /\ pend s' = pend s /\ mods s' = mods s
+  /\ (forall e, In e (log s') -> In e (log s) \/ exists b, e = EvRet t b)
+  /\ (forall e, In e (log s) -> In e (log s'))
+  /\ (exists p', is_pcall p' = false /\ (thr s' = upd (thr s) t p' \/ thr s' = thr s))
+  /\ g_late s' = g_late s
+  /\ (g_started s' = true \/ (g_started s' = g_started s /\ thr s t <> PIdle)).
+Proof.
+  intros NC NS. unfold tstep.
+  destruct (thr s t) as [| |l| | |todo n|nm mf bf cur todo n|ok] eqn:E; try discriminate.
+  - simpl. repeat split; auto. exists PEnter. split; auto.
+  - simpl. repeat split; auto. exists (PRead (w_base w + length (mods s))). split; auto.
+    right. split; [reflexivity|discriminate].
+  - destruct (l =? cache s); simpl; repeat split; auto.
+    + intros e [H|H]; [right; eexists; symmetry; exact H|left; exact H].
+    + exists (PDone true). split; auto.
+    + right. split; [reflexivity|discriminate].
+    + exists PSlow. split; auto.
+    + right. split; [reflexivity|discriminate].
+  - destruct (c_locked c); [destruct (lock s)|]; simpl; repeat split; auto;
+      try (exists PLocked; split; auto); try (right; split; [reflexivity|discriminate]).
+  - simpl. repeat split; auto.
+    + eexists (PScan _ _). split; [reflexivity|left; reflexivity].
+    + right. split; [reflexivity|discriminate].
+  - destruct todo; [|discriminate]. simpl. rel_rw.
+    destruct (release_fields (mkst (mods s) (popped s) (pend s) n (lock s) (thr s) (log s) (nreg s)
+               (g_since_snap s) (g_since_snap s) (g_nrem s) (g_started s) (g_late s) (g_snap_scan s) (g_snap_scan s)) t)
+      as (_&_&_&_&_&_&_&GL&GS).
+    simpl. rewrite GL, GS. simpl. repeat split; auto.
+    + intros e [H|H]; [right; eexists; symmetry; exact H|left; exact H].
+    + exists (PDone true). split; auto.
+    + right. split; [reflexivity|discriminate].
+  - simpl. repeat split; auto. exists PEnter. split; auto.
+Qed.
+
+Lemma ex_upd (P : pc -> bool) f t p' :
+  (exists t', P (upd f t p' t') = true) -> P p' = true \/ exists t', P (f t') = true.
+Proof.
+  intros [t' H]. unfold upd in H. destruct (t' =? t); [left; exact H|right; exists t'; exact H].
+Qed.
+
+Lemma ex_upd_back (P : pc -> bool) f t p' :
+  P (f t) = false -> (exists t', P (f t') = true) -> exists t', P (upd f t p' t') = true.
+Proof.
+  intros NF [t' H]. exists t'. unfold upd. destruct (t' =? t) eqn:Q; [|exact H].
+  apply Nat.eqb_eq in Q. subst. congruence.
+Qed.
+
+(* ------------------------------------------------------------------ never both kinds for one module *)
+Section NeverBoth.
+Variable c : cfg.
+Variable w : world.
+Hypothesis Hpop : c_pop c = true.
+Variables n o : nat.
+
+Definition Mn_thr (p : pc) : bool :=
+  match p with PCall nm (Some _) _ _ _ _ => nm =? n | _ => false end.
+Definition Mc_thr (p : pc) : bool :=
+  match p with PCall nm (Some o') _ _ _ _ => (nm =? n) && (o' =? o) | _ => false end.
+Definition Bc_thr (p : pc) : bool :=
+  match p with PCall nm None (Some _) (Some o') _ _ => (nm =? n) && (o' =? o) | _ => false end.
+Definition Mn (s : st) : Prop := (exists o' d, In (EvCallM o' n d) (log s)) \/ exists t, Mn_thr (thr s t) = true.
+Definition Mc (s : st) : Prop := (exists d, In (EvCallM o n d) (log s)) \/ exists t, Mc_thr (thr s t) = true.
+Definition Bc (s : st) : Prop := (exists f, In (EvCallB f n (Some o)) (log s)) \/ exists t, Bc_thr (thr s t) = true.
+Definition is_MB (e : event) : bool := match e with EvCallM _ _ _ | EvCallB _ _ _ => true | _ => false end.
+
+Definition NBody (s : st) : Prop :=
+  (g_started s = false ->
+     popped s = [] /\ (forall t, thr s t = PIdle) /\ (forall e, In e (log s) -> is_MB e = false))
+  /\ (Mn s -> m_get (pend s) n = None)
+  /\ (Mc s -> Bc s -> False)
+  /\ (forall f n' o', In (EvImm f n' o') (log s) -> glue_of w o' = None).
+
+Definition NB (s : st) : Prop := PM w o s /\ (g_late s = false -> NBody s).
+
+Lemma Mc_Mn s : Mc s -> Mn s.
+Proof.
+  intros [[d H]|[t H]]; [left; eauto|right; exists t].
+  unfold Mc_thr, Mn_thr in *. destruct (thr s t); try discriminate.
+  destruct mf; [|discriminate]. apply andb_true_iff in H. tauto.
+Qed.
+
+Lemma Bc_settled s : PM w o s -> Bc s -> settled w s o.
+Proof.
+  intros [A B] [[f H]|[t H]]; [eapply A; eauto|].
+  unfold Bc_thr in H. destruct (thr s t) eqn:E; try discriminate.
+  destruct mf; [discriminate|]. destruct bf; [|discriminate]. destruct cur as [o'|]; [|discriminate].
+  apply andb_true_iff in H. destruct H as [_ H]. apply Nat.eqb_eq in H. subst. eapply B. exact E.
+Qed.
+
+Lemma NB_env e s : NB s -> NB (apply_env w e s).
+Proof.
+  intros [P N]. split; [exact (PM_step (c := c) w o (LEnv e) Hpop P)|].
+  destruct e as [i|n'].
+  - (* sys.modules operation: nothing the body mentions changes *)
+    simpl. destruct (apply_ir_fields i s) as (a&b&_&_&e&f&_). destruct (ir_ghost i s) as [g h].
+    unfold NBody, Mn, Mc, Bc. rewrite a, b, e, f, g, h. exact N.
+  - (* registration *)
+    intros GL.
+    assert (GG : g_late s = false /\ g_started s = false).
+    { simpl in GL. destruct (m_get (pend s) n'); [|destruct (m_get (mods s) n') as [o'|]; [destruct (has_own w s o')|]];
+        simpl in GL; try (rewrite (proj2 (irs_ghost _ _)) in GL; simpl in GL); apply orb_false_iff in GL; exact GL. }
+    destruct GG as [G1 G2]. destruct (N G1) as (N0 & N1 & N5 & N4). destruct (N0 G2) as (PO & ID & NOMB).
+    assert (NoMn : forall s', thr s' = thr s -> (forall e, In e (log s') -> is_MB e = true -> In e (log s)) -> Mn s' -> False).
+    { intros s' T L [(o' & d & H)|[t H]].
+      - apply L in H; [|reflexivity]. apply NOMB in H. discriminate.
+      - rewrite T, ID in H. discriminate. }
+    assert (NoMc : forall s', thr s' = thr s -> (forall e, In e (log s') -> is_MB e = true -> In e (log s)) -> Mc s' -> False).
+    { intros s' T L H. apply (NoMn s' T L). apply Mc_Mn. exact H. }
+    simpl.
+    destruct (m_get (pend s) n') eqn:PE; [|destruct (m_get (mods s) n') as [o'|] eqn:MO; [destruct (has_own w s o') eqn:HO|]].
+    + (* refused *)
+      unfold NBody. simpl. repeat split; auto.
+      * intros e [H|H]; [subst; reflexivity|apply NOMB; exact H].
+      * intros H. exfalso. eapply NoMn; [| |exact H]; simpl; auto. intros e [X|X] Y; [subst; discriminate|exact X].
+      * intros H _. eapply NoMc; [| |exact H]; simpl; auto. intros e [X|X] Y; [subst; discriminate|exact X].
+      * intros f n0 o0 [H|H]; [discriminate|eapply N4; exact H].
+    + (* module brings its own glue: dropped *)
+      unfold NBody. simpl. repeat split; auto.
+      * intros H. exfalso. eapply NoMn; [| |exact H]; simpl; auto.
+      * intros H _. eapply NoMc; [| |exact H]; simpl; auto.
+    + (* run at once: no extraction has started, so nothing is popped: the module has no glue *)
+      assert (GN : glue_of w o' = None).
+      { unfold has_own in HO. rewrite PO in HO. destruct (glue_of w o'); [discriminate|reflexivity]. }
+      unfold NBody. destruct (irs_ghost (feff (bfn_of w (nreg s)))
+        (add_log (mkst (mods s) (popped s) (pend s) (cache s) (lock s) (thr s) (log s) (S (nreg s))
+           (g_since_cache s) (g_since_snap s) (g_nrem s) (g_started s) (g_late s || g_started s)
+           (g_snap_cache s) (g_snap_scan s)) (EvImm (nreg s) n' o'))) as [X1 X2].
+      rewrite X1. unfold Mn, Mc, Bc. irs_rw. simpl. repeat split; auto.
+      * intros e [H|H]; [subst; reflexivity|apply NOMB; exact H].
+      * intros H. exfalso. eapply (NoMn (add_log s (EvImm (nreg s) n' o'))); simpl; auto.
+        intros e [X|X] Y; [subst; discriminate|exact X].
+      * intros H _. eapply (NoMc (add_log s (EvImm (nreg s) n' o'))); simpl; auto.
+        intros e [X|X] Y; [subst; discriminate|exact X].
+      * intros f n0 o0 [H|H]; [inversion H; subst; exact GN|eapply N4; exact H].
+    + (* made pending *)
+      unfold NBody. simpl. repeat split; auto.
+      * intros H. exfalso. eapply NoMn; [| |exact H]; simpl; auto.
+      * intros H _. eapply NoMc; [| |exact H]; simpl; auto.
+Qed.
+End NeverBoth.
